@@ -26,7 +26,8 @@ type State struct {
 	blocksToRequest    []bitcoin.Hash32  // Blocks that need to be requested
 	pendingBlockSize   int               // The data size (bytes) of the blocks pending processing
 	lastSavedHash      bitcoin.Hash32
-	pendingSync        bool // The peer has notified us of all blocks. Now we just have to process to catch up.
+	pendingSync        bool            // The peer has notified us of all blocks. Now we just have to process to catch up.
+	processingBlock    *bitcoin.Hash32 // Hash of the block taken with NextBlock while it is still being processed
 	lock               sync.Mutex
 }
 
@@ -69,6 +70,7 @@ func (state *State) Reset() {
 	state.blocksToRequest = state.blocksToRequest[:0]
 	state.pendingSync = false
 	state.pendingBlockSize = 0
+	state.processingBlock = nil
 }
 
 func (state *State) ProtocolVersion() uint32 {
